@@ -6,7 +6,7 @@ package bmmeta
 
 //@ props C14
 
-// metadata lookup: a function of the receiver's metadata only (map read; not verified)
+// metadata lookup: a function of the receiver's metadata only (map read)
 //@ func (bm *BasmMeta) GetMeta(key string) string
 //@   pure
-//@   trusted
+//@   reads bm.metaData, bm.metaData[*]
